@@ -120,7 +120,10 @@ def norm(t, depth=0):
             if vn == "Ok" and f.startswith("<") and f.endswith(" as parse::ParseAt>::validate_entsize"):
                 return ("entsize", f[1:].split(" as ")[0], norm(args[1], d))
             if vn == "Some" and f == "[T]::get" and args[1].op == "agg" and args[1].args[1] == "ops::Range":
-                return ("slice", norm(args[0], d), norm(args[1].args[4][0], d), norm(args[1].args[4][1], d))
+                d_, a_, b_ = norm(args[0], d), norm(args[1].args[4][0], d), norm(args[1].args[4][1], d)
+                if b_ == ("len", d_):
+                    return ("slice_from", d_, a_)       # s[a .. s.len()] is s[a..]
+                return ("slice", d_, a_, b_)
             if vn == "Some" and f == "[T]::get" and args[1].op == "agg" and args[1].args[1] == "ops::RangeFrom":
                 return ("slice_from", norm(args[0], d), norm(args[1].args[4][0], d))
             if vn == "Some" and f == "[T]::get" and args[1].op == "agg" and args[1].args[1] == "ops::RangeTo":
